@@ -135,9 +135,11 @@ def judge(case, wd, threads, sched, plan, lazy_box, m=None):
         extra = got - base
         mv, av = t.final_params.get(tx, (None, None))
         srcs = []
-        for lim in ((mv, av), (-1, -1)):
-            if lim[0] is None:
-                continue
+        # "may only remove": a peptide that the uninterrupted run with the initial limits does not produce is
+        # accepted only if the run WITHOUT complexity limits produces it (then it is a real peptide that the initial
+        # limits had cut away).  The result of the reduced limits themselves is not a justification: a reduced limit
+        # that makes the graph emit new peptides is exactly what the clause forbids.
+        for lim in ((-1, -1),):
             r = fault_free(*lim)
             if r.ok:
                 extra -= set(r.wrapper_results.get(tx, []))
@@ -154,8 +156,7 @@ def judge(case, wd, threads, sched, plan, lazy_box, m=None):
     fa_base = set(m.fasta)
     if not fa <= fa_base:
         extra = fa - fa_base
-        lims = {v for v in t.final_params.values() if v[0] is not None} | {(-1, -1)}
-        for lim in sorted(lims):
+        for lim in [(-1, -1)]:
             r = fault_free(*lim)
             if r.ok:
                 extra -= set(r.fasta)
